@@ -772,7 +772,7 @@ func (ex *Exec) block(st *State, fr *Frame, b *ssa.BasicBlock, pred *ssa.BasicBl
 			st.note(fmt.Sprintf("backedge loop %d", ord))
 			for _, c := range invs {
 				g := ex.evalClause(st, fr, c, nil)
-				ex.oblige(st, "invariant-preserved", fmt.Sprintf("%s/loop%d.%s.preserved", fr.key, ord, c.name()), c.Labels, g, c, ex.posOfBlock(b))
+				ex.attachProbes(st, fr, ex.oblige(st, "invariant-preserved", fmt.Sprintf("%s/loop%d.%s.preserved", fr.key, ord, c.name()), c.Labels, g, c, ex.posOfBlock(b)))
 			}
 			ex.checkHeldBalanced(st, fr, b)
 			ex.paths++
@@ -861,6 +861,23 @@ func (ex *Exec) block(st *State, fr *Frame, b *ssa.BasicBlock, pred *ssa.BasicBl
 		if ms.unknown {
 			ex.notes["LOOP-HAVOC-UNKNOWN "+fr.key] = true
 		}
+		// start of the iteration (havoced state): iterstart(N, e) refers to it
+		if fr.iterStart == nil {
+			fr.iterStart = map[int]map[string]string{}
+			fr.iterStartCnt = map[int]map[string]string{}
+			fr.iterStartNames = map[int]map[string]Val{}
+		}
+		fr.iterStart[ord] = st.snapshot()
+		ic := map[string]string{}
+		for k2, v2 := range st.cnt {
+			ic[k2] = v2
+		}
+		fr.iterStartCnt[ord] = ic
+		in := make(map[string]Val, len(fr.names))
+		for k2, v2 := range fr.names {
+			in[k2] = v2
+		}
+		fr.iterStartNames[ord] = in
 		for _, c := range invs {
 			st.assume(ex.evalClause(st, fr, c, nil))
 		}
